@@ -19,3 +19,11 @@ def run(report, tier):
                        "daughters, depth up to 5) x every mother x all 64 stable sets over the particles involved (given as list, tuple or set)",
                 functions=FUNCS, timeout=3000 if tier == "thorough" else 600, sample={"codes": [3, 4, 2, 1, 0], "stable": ["K_1(1270)+"]})
     chrun.run_harness(report, h)
+    hv = Harness(name="chain-values", module="harness.c09", body="body_chain_values", sig="sel: int, x: float, y: float, z: float", n_sel=H.N_VALUES,
+                 pre=["x == x", "y == y", "z == z"],
+                 claim="every entry of a nested chain (repeated decaying daughters, an empty block, three stable sets) carries the branching "
+                       "fraction and the numeric parameters of its line - for every value",
+                 bounds="one hand-built table set of four particles behind a Lark stub x 3 stable sets",
+                 symbolic="three numeric token values: any non-NaN float", functions=FUNCS, shards=3, timeout=300,
+                 sample={"tree": "B0 -> D0 K_S0 D0 (bf x); D0 -> K_S0 pi0 K_S0 (bf y, params z x) | pi0 (bf z); K_S0 -> pi+ pi- (bf z)"})
+    chrun.run_harness(report, hv)
